@@ -63,6 +63,9 @@ func TestMain(m *testing.M) {
 	glue.LoadRegistry()
 	intermediate.MaxRetries = 1 << 30
 	if rp := ev.LoadReplay(); rp != nil {
+		if rp.Phase == "stop_overtakes_start" {
+			ev.RunReplay(rp, runStopOvertakesStart)
+		}
 		if rp.Phase == "stop_under_traffic" {
 			ev.RunReplay(rp, runStopUnderTraffic)
 		}
